@@ -48,7 +48,8 @@ REQUESTS = [
     ('lazy_exc', 'lazy', [('n', 4), ('fail_after', 1), ('how', 'exc')]),
     ('lazy_exc0', 'lazy', [('n', 4), ('fail_after', 0), ('how', 'exc')]),
     ('lazy_always', 'lazy', [('n', 4), ('fail_after', 1), ('how', 'always')]),
-    ('pair', 'pair', [('n', 3)]), ('pair_ignored', 'pair', [('n', -1)]),
+    ('pair', 'pair', [('n', 3)]), ('pair_ignored', 'pair', [('n', -1)]), ('pair_empty', 'pair', [('n', -2)]), ('pair_short', 'pair', [('n', -3)]),
+    ('pair_none', 'pair', [('n', -4)]),
     ('fault_odd_ctl', 'fail_odd', [('which', 'ctl')]), ('fault_odd_badkey', 'fail_odd', [('which', 'badkey')]),
     ('fault_odd_decimal', 'fail_odd', [('which', 'decimal')]), ('fault_odd_custom', 'fail_odd', [('which', 'custom')]),
     ('fault_odd_detailstr', 'fail_odd', [('which', 'detailstr')]), ('fault_odd_nonecode', 'fail_odd', [('which', 'nonecode')]),
@@ -297,7 +298,7 @@ def run(spec, R):
 
     reqs = []
     for rname, meth, args in REQUESTS:
-        if kind == 'httprpc' and rname in ('gen', 'gen0', 'gen_late_exc', 'pair', 'pair_ignored'):
+        if kind == 'httprpc' and rname in ('gen', 'gen0', 'gen_late_exc', 'pair', 'pair_ignored', 'pair_empty', 'pair_short', 'pair_none'):
             continue        # HttpRpc as *output* protocol only serialises primitives
         reqs.append((rname, M.encode_request(kind, meth, args)))
     if kind not in ('httprpc', 'httprpc-json'):
